@@ -1,7 +1,7 @@
 (* Proofs/MemFsWF.v — the invariant of MemMapFs: the per-directory child index mirrors the path
    map.  Part 1: association lists, the node heap, the invariant (with "pending" and "stale"
    keys for the intermediate states of Mkdir/Remove/Rename) and the primitive transitions. *)
-From AF Require Import Lib.Bytes Lib.Path Lib.Ops Gen.Consts Model.MemFile Model.MemFs
+From AF Require Import Lib.Bytes Lib.Path Lib.Ops Gen.Consts Model.MemFile Model.MemFs Model.WfOps
   Proofs.BytesLemmas Proofs.MemFsPath.
 Local Open Scope Z_scope.
 
@@ -606,4 +606,141 @@ Proof.
       destruct (str_eq_dec name k2) as [->|Hnk2]; [left; now right | right].
       assert (Hrf : r <> f) by (intros ->; apply Hx1; congruence).
       repeat split; auto; [now rewrite L | now rewrite No].
+Qed.
+
+(* ---------- registerWithParent ---------- *)
+Lemma register_present fuel s f perm k p pn :
+  node_name s f = k -> canon k -> lookup s (par k) = Some p -> get_node s p = Some pn -> nhasdir pn = true ->
+  register fuel s f perm = upd_node s p (set_kid k f).
+Proof.
+  intros Hn Hc Hp Hpn Hh. assert (E : find_parent s f = Some p) by (rewrite (find_parent_canon s f k Hn Hc); exact Hp).
+  destruct fuel; cbn [register]; rewrite E; rewrite (add_kid_eq s p f pn Hpn Hh), Hn; reflexivity.
+Qed.
+
+Definition mkdir_node (k : str) (perm now : Z) : node := with_mode (Z.lor mode_dir perm) (new_dir k now).
+
+Lemma register_missing fu s f perm k :
+  node_name s f = k -> canon k -> lookup s (par k) = None ->
+  register (S fu) s f perm =
+    let s3 := register fu (put_new s (par k) (mkdir_node (par k) perm (mclock s))) (length (mheap s)) perm in
+    match lookup s3 (par k) with Some p => add_kid s3 p f | None => s3 end.
+Proof.
+  intros Hn Hc Hp. assert (E : find_parent s f = None) by (rewrite (find_parent_canon s f k Hn Hc); exact Hp).
+  cbn [register]. rewrite E, Hn. rewrite (register_path k Hc), Hp.
+  unfold lockfree_open. rewrite (canon_clean k Hc). change (path_dir k) with (par k).
+  rewrite (canon_norm _ (canon_par k Hc)). reflexivity.
+Qed.
+
+(* what a chain of auto-created ancestors may change *)
+Record reg_frame (perm : Z) (k : str) (s s' : mst) : Prop := mkRF {
+  rf_keep : forall k' r, lookup s k' = Some r -> lookup s' k' = Some r;
+  rf_new : forall k' r, lookup s' k' = Some r -> lookup s k' = None ->
+           below k' k = true /\ exists n, get_node s' r = Some n /\ with_kids [] n = mkdir_node k' perm (mclock s);
+  rf_nodes : forall r n, get_node s r = Some n -> exists n', get_node s' r = Some n' /\ with_kids [] n' = with_kids [] n;
+  rf_handles : mhandles s' = mhandles s;
+  rf_clock : mclock s' = mclock s
+}.
+
+Lemma with_kids_nil_fields n n' : with_kids [] n' = with_kids [] n ->
+  nname n' = nname n /\ ndir n' = ndir n /\ nhasdir n' = nhasdir n /\ ndata n' = ndata n /\ nmode n' = nmode n /\ nmtime n' = nmtime n.
+Proof. destruct n, n'. cbn. intros H. inversion H. repeat split; reflexivity. Qed.
+
+Lemma reg_frame_kid perm k s p g :
+  (forall n, with_kids [] (g n) = with_kids [] n) -> reg_frame perm k s (upd_node s p g).
+Proof.
+  intros Hg. split.
+  - intros k' r. now rewrite lookup_upd.
+  - intros k' r. rewrite lookup_upd. congruence.
+  - intros r n Hn. rewrite get_upd. destruct (Nat.eqb p r) eqn:E.
+    + apply Nat.eqb_eq in E. subst. rewrite Hn. cbn. exists (g n). auto.
+    + exists n. auto.
+  - apply mhandles_upd.
+  - apply mclock_upd.
+Qed.
+
+Lemma register_chain : forall fuel (P : kset) s k f perm,
+  (length k < fuel)%nat ->
+  GWF P kempty kempty s -> (forall x, P x -> lookup s x <> None) ->
+  lookup s k = Some f -> node_name s f = k -> k <> s_slash -> P k ->
+  (forall a r n, below a k = true -> lookup s a = Some r -> get_node s r = Some n -> ndir n = true) ->
+  GWF (ksub P k) kempty kempty (register fuel s f perm) /\ reg_frame perm k s (register fuel s f perm).
+Proof.
+  induction fuel as [|fu IH]; intros P s k f perm Hfuel G HPkeys Hk Hname Hkr HPk Hdirs; [lia|].
+  assert (Hc : canon k) by (eapply g_canon; eauto).
+  destruct (lookup s (par k)) as [p|] eqn:Hpar.
+  - (* the parent exists: it is a directory *)
+    destruct (g_node _ _ _ _ G _ _ Hpar) as (pn & Hpn & _ & Hpd & _).
+    assert (Hdir : ndir pn = true).
+    { destruct (str_eq_dec (par k) s_slash) as [E|E].
+      - destruct (g_root _ _ _ _ G) as (r0 & n0 & Hl0 & Hn0 & _ & Hd0). rewrite E in Hpar. congruence.
+      - apply (Hdirs (par k) p pn); auto. now apply below_par. }
+    rewrite (register_present (S fu) s f perm k p pn Hname Hc Hpar Hpn) by congruence.
+    split; [eapply GWF_ext; [| | |eapply (GWF_add_kid P kempty kempty s k f p pn); eauto]; try tauto; intros x [[] _] |].
+    apply reg_frame_kid. intros n; reflexivity.
+  - (* the parent is missing: lockfreeMkdir creates it and registers it first *)
+    rewrite (register_missing fu s f perm k Hname Hc Hpar). cbv zeta.
+    set (pk := par k) in *. set (nd := mkdir_node pk perm (mclock s)).
+    set (s2 := put_new s pk nd). set (item := length (mheap s)).
+    assert (Hcp : canon pk) by now apply canon_par.
+    assert (Hpkr : pk <> s_slash).
+    { intros E. destruct (g_root _ _ _ _ G) as (r0 & n0 & Hl0 & _). rewrite E in Hpar. congruence. }
+    assert (G2 : GWF (kadd P pk) kempty kempty s2) by (apply GWF_new; auto).
+    assert (L2 : forall k', k' <> pk -> lookup s2 k' = lookup s k').
+    { intros k' Hne. unfold s2. rewrite lookup_put_new. assert (E : beqb pk k' = false) by (apply beqb_neq; congruence). now rewrite E. }
+    assert (L2k : lookup s2 pk = Some item) by (unfold s2; rewrite lookup_put_new, beqb_refl; reflexivity).
+    assert (Gn2 : forall r, (r < length (mheap s))%nat -> get_node s2 r = get_node s r) by (intros; now apply get_put_new_old).
+    assert (Gi2 : get_node s2 item = Some nd) by apply get_put_new_new.
+    assert (Hkpk : k <> pk) by (intros E; symmetry in E; revert E; now apply par_neq).
+    destruct (IH (kadd P pk) s2 pk item perm) as [G3 F3].
+    + pose proof (par_shorter k Hc Hkr). fold pk in H. lia.
+    + exact G2.
+    + intros x [Hx | ->]; [rewrite L2; [now apply HPkeys | intros ->; apply (HPkeys _ Hx); exact Hpar] | congruence].
+    + exact L2k.
+    + unfold node_name. now rewrite Gi2.
+    + exact Hpkr.
+    + now right.
+    + intros a r n Hb Hl Hn. assert (Hane : a <> pk) by (intros ->; rewrite below_irrefl in Hb; discriminate).
+      rewrite L2 in Hl by exact Hane. rewrite Gn2 in Hn by (eapply GWF_lt; eauto).
+      apply (Hdirs a r n); auto. eapply below_trans; [exact Hb|]. now apply below_par.
+    + set (s3 := register fu s2 item perm) in *.
+      assert (L3k : lookup s3 pk = Some item) by (apply (rf_keep _ _ _ _ F3); exact L2k).
+      rewrite L3k.
+      destruct (rf_nodes _ _ _ _ F3 item nd Gi2) as (n3 & Hn3 & En3).
+      destruct (with_kids_nil_fields _ _ En3) as (A1 & A2 & A3 & _).
+      assert (Hf2 : lookup s2 k = Some f) by (rewrite L2; auto).
+      assert (Hf3 : lookup s3 k = Some f) by (apply (rf_keep _ _ _ _ F3); exact Hf2).
+      destruct (g_node _ _ _ _ G _ _ Hk) as (fn & Hfn & _).
+      assert (Hfn2 : get_node s2 f = Some fn) by (rewrite Gn2; [exact Hfn | now apply get_some_lt in Hfn]).
+      destruct (rf_nodes _ _ _ _ F3 f fn Hfn2) as (fn3 & Hfn3 & Efn3).
+      destruct (with_kids_nil_fields _ _ Efn3) as (B1 & _).
+      assert (Hname3 : node_name s3 f = k).
+      { rewrite (node_name_get _ _ _ Hfn3), B1, <- (node_name_get _ _ _ Hfn). exact Hname. }
+      rewrite (add_kid_eq s3 item f n3 Hn3) by (rewrite A3; reflexivity). rewrite Hname3.
+      split.
+      * eapply GWF_ext; [| | |eapply (GWF_add_kid _ kempty kempty s3 k f item n3); eauto; rewrite A2; reflexivity].
+        -- intros x. unfold ksub, kadd. split; [intros [[[Hx|Hx] Hx1] Hx2]; [auto | contradiction] |].
+           intros [Hx Hx2]. split; [split; [now left|] | exact Hx2]. intros ->. apply (HPkeys _ Hx). exact Hpar.
+        -- intros x [[] _].
+        -- intros x [].
+      * (* frame *)
+        pose proof (reg_frame_kid perm k s3 item (set_kid k f) (fun n => eq_refl)) as F4.
+        set (s4 := upd_node s3 item (set_kid k f)) in *.
+        split.
+        -- intros k' r Hl. apply (rf_keep _ _ _ _ F4). apply (rf_keep _ _ _ _ F3).
+           rewrite L2; [exact Hl | intros ->; congruence].
+        -- intros k' r Hl4 Hnone. unfold s4 in Hl4. rewrite lookup_upd in Hl4.
+           destruct (str_eq_dec k' pk) as [->|Hne].
+           ++ split; [now apply below_par|]. assert (r = item) by congruence. subst r.
+              destruct (rf_nodes _ _ _ _ F4 item n3 Hn3) as (n4 & Hn4 & En4). exists n4. split; [exact Hn4|].
+              rewrite En4, En3. reflexivity.
+           ++ rewrite <- L2 in Hnone by exact Hne.
+              destruct (rf_new _ _ _ _ F3 k' r Hl4 Hnone) as (Hb & n & Hn & En).
+              split; [eapply below_trans; [exact Hb | now apply below_par]|].
+              destruct (rf_nodes _ _ _ _ F4 r n Hn) as (n4 & Hn4 & En4). exists n4. split; [exact Hn4|].
+              rewrite En4, En. reflexivity.
+        -- intros r n Hn. assert (Hn2 : get_node s2 r = Some n) by (rewrite Gn2; [exact Hn | now apply get_some_lt in Hn]).
+           destruct (rf_nodes _ _ _ _ F3 r n Hn2) as (n3' & Hn3' & En3').
+           destruct (rf_nodes _ _ _ _ F4 r n3' Hn3') as (n4 & Hn4 & En4). exists n4. split; [exact Hn4 | congruence].
+        -- rewrite (rf_handles _ _ _ _ F4), (rf_handles _ _ _ _ F3). reflexivity.
+        -- rewrite (rf_clock _ _ _ _ F4), (rf_clock _ _ _ _ F3). reflexivity.
 Qed.
